@@ -61,6 +61,25 @@ def run(ctx):
                     p["dx"][rng.randrange(p["n"])] = 1e-13
                 p["quietx"] = 0
                 ps.append(p)
+        # budget sweep (every N from 1 up): exits taken while the initial interpolation set / population is still being built
+        for nm in problems.ALL:
+            base = problems.gen_problem(rng, A, alg_name=nm, with_constraints=False, box="finite")
+            for k in ("stopval", "ftol_rel", "xtol_rel", "xtol_abs", "maxtime", "clockq", "clock0"):
+                base.pop(k, None)
+            for N in range(1, (60 if ctx.thorough else 30) + 1):
+                q = dict(base)
+                q["maxeval"] = N
+                ps.append(q)
+        # long runs with the optimum on a bound (sizes shrink to rounding level next to the bound: the returned point must still be
+        # the evaluated one, bit for bit)
+        for nm in problems.GLOBAL + ["NLOPT_LN_NELDERMEAD", "NLOPT_LN_SBPLX", "NLOPT_LN_PRAXIS", "NLOPT_LN_COBYLA", "NLOPT_LN_BOBYQA"]:
+            for rep in range(4 if ctx.thorough else 2):
+                p = problems.gen_problem(rng, A, alg_name=nm, box="opt_outside", with_constraints=False, maxeval=(4000 if nm in problems.GLOBAL else 800),
+                                         n=rng.choice([1, 2]) if nm not in ("NLOPT_LN_BOBYQA",) else 2)
+                for k in ("stopval", "maxtime", "clockq", "clock0", "ftol_rel", "xtol_abs", "xtol_rel"):
+                    p.pop(k, None)
+                p["obj"] = rng.choice([0, 3])
+                ps.append(p)
         batch = runcheck.run_batch(ctx, bdir, A, ps, [monitors.mon_returned_point], "all algorithms, early exits")
         # two-stage stopval family with a NON-CONVEX feasible set (outside of a ball): first the run without stopval, then the same
         # problem with a stopval just below / just above the value reached: STOPVAL_REACHED must come with an opt_f that reached it
